@@ -258,8 +258,8 @@ _INTERESTING = {
     "color_primaries_index": [0, 1, 2, 3, 4, 5],
     "color_matrix_index": [0, 1, 2, 3, 4, 5],
     "transfer_function_index": [0, 1, 2, 3, 4, 5, 6],
-    "luma_excursion": [0, 1, 2, 255, 256, 1023, 65535, 1 << 20, (1 << 20) + 1],
-    "color_diff_excursion": [0, 1, 2, 255, 256, 1023, 65535, 1 << 20, (1 << 20) + 1],
+    "luma_excursion": [0, 1, 2, 255, 256, 1023, 65535, 1 << 20, (1 << 40) + 1, (1 << 31) - 1, (1 << 29) - 1],
+    "color_diff_excursion": [0, 1, 2, 255, 256, 1023, 65535, 1 << 20, (1 << 40) + 1, (1 << 31) - 1, (1 << 29) - 1],
     "fragment_slice_count": [0, 1, 2, 3, 4, 100],
     "fragment_x_offset": [0, 1, 2, 3, 100],
     "fragment_y_offset": [0, 1, 2, 3, 100],
